@@ -406,7 +406,7 @@ class Check:
         return 0 if ok else 1
 
 
-CRASH_MARKS = ("panic:", "fatal error:", "SIGSEGV", "all goroutines are asleep")
+CRASH_MARKS = ("panic:", "fatal error:", "SIGSEGV", "all goroutines are asleep", "test timed out")
 
 
 def crash_violation(ck, err, outp, hs, rerun, what):
